@@ -44,7 +44,8 @@ def params_h(k, cmax):
 
 def hold_groups(k, cmax, tier, depth=1, const=None):
     """Held-body family of k steps.  The first `depth` free actions a1..a_depth are enumerated here over their whole ranges
-    (one generated module per combination, so the union is every schedule); inside a combination the shards are the values
+    (one generated module per combination, so the union is every schedule; combinations in which an action names an entry
+    that cannot exist yet contain no well-formed schedule and are discharged vacuously, twin confirmed); inside a combination the shards are the values
     of count and, when the enumerated prefix contains a further arrival (the schedules with the most waiting), of the next
     action as well."""
     import itertools
@@ -57,10 +58,10 @@ def hold_groups(k, cmax, tier, depth=1, const=None):
         if 1 in combo and nxt in byname:
             on[nxt] = list(range(byname[nxt][2], byname[nxt][3] + 1))
         tag = ''.join(f'{n}{v}' for n, v in zip(names, combo))
-        out.append(sched.gen_shards(f'C24_{tier}_h{k}{tag}', HM, params_h(k, cmax), on, entry=(f'check_h{k}', f'reach_h{k}'),
+        out += (sched.gen_shards(f'C24_{tier}_h{k}{tag}', HM, params_h(k, cmax), on, entry=(f'check_h{k}', f'reach_h{k}'),
                                     const={**dict(zip(names, combo)), **(const or {})}, prefix=f'h{k}_{tag}_',
                                     meta={'k': k, 'hold': True})[1])
-    return out
+    return [out]   # one group: the vacuity rule (some shard's twin is refuted) is applied to the family as a whole
 
 
 def describe(a, meta):
